@@ -245,8 +245,20 @@ def vertex_family(ctx, seen):
     ctx.vacuity_witness('vertex-struct purity assertions reachable', oks[0][0])
 
 
+TIE_SRCS = [
+    # items of one kind whose natural sort / selection keys TIE (equal sizes, equal first locations, equal binding counts ...): any choice
+    # made by iteration order of a hash container shows up as different text in different processes
+    'struct VC { t: vec4<f32> }\nstruct FC { t: vec4<f32> }\nvar<push_constant> vcs: VC;\nvar<push_constant> fcs: FC;\n'
+    '@vertex fn vs() -> @builtin(position) vec4<f32> { return vcs.t; }\n@fragment fn fs() -> @location(0) vec4<f32> { return fcs.t; }\n',
+    'struct A { x: f32 }\nstruct B { x: f32 }\nstruct C { x: f32 }\n@group(0) @binding(0) var<uniform> a: A;\n@group(1) @binding(0) var<uniform> b: B;\n'
+    '@group(2) @binding(0) var<uniform> c: C;\noverride o1: f32 = 1.0;\noverride o2: f32 = 1.0;\nconst K1: u32 = 1u;\nconst K2: u32 = 1u;\n'
+    '@vertex fn vs() -> @builtin(position) vec4<f32> { return vec4<f32>(a.x * o1); }\n@fragment fn fs() -> @location(0) vec4<f32> { return vec4<f32>(b.x * o2); }\n'
+    '@compute @workgroup_size(1) fn c1() { let t = c.x; }\n@compute @workgroup_size(1) fn c2() { let t = c.x; }\n',
+]
+
+
 def native(ctx, srcs=None):
-    srcs = list(srcs or [open(f).read() for f in sorted(glob.glob('/repo/wgsl_to_wgpu/src/data/bindgroup/*.wgsl'))]) + [vsrc(), vsrc((1, 0, 1))]
+    srcs = list(srcs or [open(f).read() for f in sorted(glob.glob('/repo/wgsl_to_wgpu/src/data/bindgroup/*.wgsl'))]) + [vsrc(), vsrc((1, 0, 1))] + TIE_SRCS
     rep, det = native_purity(ctx, srcs)
     if rep:
         ctx.report('C18/native', f'real build is not a function of its input: {det.get("first")}', det, True, det)
